@@ -61,6 +61,7 @@ enum P {
     CastF(Op, usize, i64),           // cast(i<n> as Float64) op literal (as f64)
     ColCol(Op, usize, usize),        // i<a> op i<b>
     Arith(Op, usize, i64, i64),      // i<n> + k op literal
+    Wrap(Op, usize, Vec<u8>, i64),   // nested wrappers around i<n> (0 = negate, 1 = cast f64, 2 = try_cast f64, 3 = cast i64) op literal
 }
 
 fn icol(n: usize) -> Expr { col(format!("i{n}")) }
@@ -85,6 +86,19 @@ fn to_expr(p: &P) -> Expr {
         P::TryCastCmp(o, n, l) => bin(datafusion_expr::try_cast(icol(*n), DataType::Int32), *o, lit(ScalarValue::Int32(Some(*l)))),
         P::CastF(o, n, l) => bin(datafusion_expr::cast(icol(*n), DataType::Float64), *o, lit(ScalarValue::Float64(Some(*l as f64)))),
         P::ColCol(o, a, b) => bin(icol(*a), *o, icol(*b)),
+        P::Wrap(o, n, ws, l) => {
+            let mut e = icol(*n);
+            let mut is_f = false;
+            for w in ws {
+                e = match w {
+                    0 => Expr::Negative(Box::new(e)),
+                    1 => { is_f = true; datafusion_expr::cast(e, DataType::Float64) }
+                    2 => { is_f = true; datafusion_expr::try_cast(e, DataType::Float64) }
+                    _ => datafusion_expr::cast(e, DataType::Int64),
+                };
+            }
+            bin(e, *o, if is_f { lit(ScalarValue::Float64(Some(*l as f64))) } else { ilit(Some(*l)) })
+        }
         P::Arith(o, n, k, l) => bin(Expr::BinaryExpr(BinaryExpr::new(Box::new(icol(*n)), Operator::Plus, Box::new(ilit(Some(*k))))), *o, ilit(Some(*l))),
     }
 }
@@ -93,7 +107,7 @@ fn modelled(p: &P) -> bool {
     match p {
         P::Not(q) => modelled(q),
         P::And(a, b) | P::Or(a, b) => modelled(a) && modelled(b),
-        P::NegCmp(..) | P::BCmp(..) | P::TryCastCmp(..) | P::CastF(..) | P::ColCol(..) | P::Arith(..) => false,
+        P::NegCmp(..) | P::BCmp(..) | P::TryCastCmp(..) | P::CastF(..) | P::ColCol(..) | P::Arith(..) | P::Wrap(..) => false,
         _ => true,
     }
 }
@@ -130,7 +144,7 @@ fn gen_lit(rng: &mut Rng) -> Option<i64> {
 }
 
 fn gen_leaf(rng: &mut Rng, extras: bool) -> P {
-    let r = rng.below(if extras { 130 } else { 100 });
+    let r = rng.below(if extras { 145 } else { 100 });
     let ic = rng.below(NI as u64) as usize;
     let bc = rng.below(NB as u64) as usize;
     match r {
@@ -150,13 +164,24 @@ fn gen_leaf(rng: &mut Rng, extras: bool) -> P {
         114..=118 => P::TryCastCmp(*rng.pick(OPS), ic, *rng.pick(&[0i32, 1, 2, 3, -1, i32::MAX, i32::MIN])),
         119..=122 => P::CastF(*rng.pick(OPS), ic, gen_val(rng)),
         123..=126 => P::ColCol(*rng.pick(OPS), 0, 1),
-        _ => P::Arith(*rng.pick(OPS), ic, *rng.pick(&[0i64, 1, 2]), *rng.pick(SMALL)),
+        127..=130 => P::Arith(*rng.pick(OPS), ic, *rng.pick(&[0i64, 1, 2]), *rng.pick(SMALL)),
+        _ => {
+            // nested wrappers: each rewrite step may flip the comparison (negation) or must keep it (casts)
+            let ws: &[u8] = *rng.pick(&[&[0u8, 1][..], &[0, 2], &[1, 0], &[2, 0], &[0, 1, 0], &[0, 3], &[3, 0], &[0, 0], &[0, 3, 1]]);
+            P::Wrap(*rng.pick(OPS), ic, ws.to_vec(), *rng.pick(SMALL))
+        }
     }
 }
 
 fn gen_pred(rng: &mut Rng, depth: u32, extras: bool) -> P {
     if depth == 0 || rng.chance(1, 4) {
         return gen_leaf(rng, extras);
+    }
+    if extras && rng.chance(1, 3) {
+        // a bare (or once-conjoined) special leaf, so that its own rewrite decides the pruning
+        let mut leaf = gen_leaf(rng, true);
+        for _ in 0..6 { if modelled(&leaf) { leaf = gen_leaf(rng, true); } }
+        return if rng.chance(1, 3) { P::And(Box::new(leaf), Box::new(gen_leaf(rng, false))) } else { leaf };
     }
     match rng.below(100) {
         0..=44 => P::And(Box::new(gen_pred(rng, depth - 1, extras)), Box::new(gen_pred(rng, depth - 1, extras))),
@@ -380,13 +405,33 @@ fn main() {
     let n: usize = arg(&args, "--n", "300").parse().unwrap();
     let mut rng = Rng::new(seed);
     let schema = schema();
+    // systematic sweep (runs first): one bare comparison per (wrapper nesting, operator, literal).
+    // Every rewrite step must keep or flip the comparison consistently; containers are drawn as usual.
+    let mut fixed: Vec<P> = vec![];
+    for ws in [&[0u8][..], &[1], &[2], &[0, 1], &[0, 2], &[1, 0], &[2, 0], &[0, 1, 0], &[0, 0], &[0, 0, 1], &[1, 0, 2]] {
+        for o in OPS {
+            for l in [-1i64, 0, 2] {
+                fixed.push(P::Wrap(*o, ((l + 1) as usize) % NI, ws.to_vec(), l));
+            }
+        }
+    }
+    let sweep = fixed.len().min(n / 2);
     for case in 0..n {
         let extras = case % 5 == 4;
         let depth = rng.below(5) as u32;
-        let p = gen_pred(&mut rng, depth, extras);
-        let nc = 1 + rng.below(5) as usize;
-        let rows: Vec<Vec<Row>> = (0..nc).map(|_| gen_container(&mut rng)).collect();
-        let cs: Vec<CStats> = rows.iter().map(|r| gen_stats(&mut rng, r)).collect();
+        let p = if case < sweep { fixed[(case * fixed.len()) / sweep.max(1)].clone() } else { gen_pred(&mut rng, depth, extras) };
+        let mut nc = 1 + rng.below(5) as usize;
+        let mut rows: Vec<Vec<Row>> = (0..nc).map(|_| gen_container(&mut rng)).collect();
+        let mut cs: Vec<CStats> = rows.iter().map(|r| gen_stats(&mut rng, r)).collect();
+        let mut p = p;
+        if case == 0 {
+            // corpus: witness of the listed known finding (negation of i64::MIN wraps in evaluation but not in pruning)
+            p = P::Wrap(Op::Lt, 0, vec![0], 0);
+            nc = 1;
+            rows = vec![vec![Row { i: vec![Some(i64::MIN), Some(1)], b: vec![None, None] }]];
+            cs = vec![CStats { imin: vec![Some(i64::MIN), Some(1)], imax: vec![Some(i64::MIN), Some(1)], inc: vec![Some(0), Some(0)],
+                               bmin: vec![None, None], bmax: vec![None, None], bnc: vec![Some(1), Some(1)], rc: Some(1) }];
+        }
         let contained_mode: Vec<(u8, bool)> = (0..nc).map(|_| (if rng.chance(1, 4) { 1 } else { 0 }, rng.chance(1, 2))).collect();
         let mut st = Stats { cs, rows, use_contained: false, contained_mode, none_when_all_unknown: rng.chance(1, 2) };
         let res = catch_unwind(AssertUnwindSafe(|| run_case(&p, &mut st, &schema)));
